@@ -25,10 +25,10 @@ import (
 	dist "github.com/acquirecloud/golibs/kvs/distlock"
 	"github.com/acquirecloud/golibs/kvs/inmem"
 	gredis "github.com/acquirecloud/golibs/kvs/redis"
-	"github.com/alicebob/miniredis/v2"
-	"github.com/go-redis/redis/v8"
 	"github.com/acquirecloud/golibs/logging"
 	"github.com/acquirecloud/golibs/timeout"
+	"github.com/alicebob/miniredis/v2"
+	"github.com/go-redis/redis/v8"
 )
 
 type Fault struct {
@@ -84,8 +84,12 @@ type Case struct {
 	// the real time that has passed, once a millisecond (the server keeps the TTL of the lock record, the client sends
 	// it): leases of a few hundred milliseconds must be kept on this backend, too
 	Redis bool `json:"redis,omitempty"`
-	Pre  string `json:"pre,omitempty"`
-	PreK int    `json:"pre_k,omitempty"`
+	// scenario (xi) "waited": the acquisition (Acq = lock) starts while another Locker (own provider on the bare store,
+	// lease 1 h) holds the lock and goes on WaitU units of TTL/24 later, when that Locker unlocks: the tenure under study
+	// begins after a wait of 0.6 .. 1.7 lease periods inside Lock; its record must carry the lease of THAT moment
+	WaitU int    `json:"wait_u,omitempty"`
+	Pre   string `json:"pre,omitempty"`
+	PreK  int    `json:"pre_k,omitempty"`
 	Jit   uint64 `json:"jit"`
 }
 
@@ -100,6 +104,7 @@ type outcome struct {
 	acquired2   bool
 	contFail    bool
 	hardOdd     []string
+	shortLease  string
 	dl, ep      int64
 	k           int64
 	premise     bool
@@ -188,6 +193,7 @@ func runScenario(cs Case) (o *outcome) {
 		o.evs = append([]event(nil), c.evs...)
 		o.contCAS, o.blackholed, o.renewals = c.contCAS, c.blackholed, c.holderCAS
 		o.hardOdd = append([]string(nil), c.hardOdd...)
+		o.shortLease = c.shortLease
 		for _, s := range c.oddities {
 			if strings.HasPrefix(s, "contender") && strings.Contains(s, "Delete") {
 				o.noiseOdd++
@@ -321,6 +327,27 @@ func runScenario(cs Case) (o *outcome) {
 			// let the callback of the finished tenure go on (it arms its left-over attempt)
 			time.Sleep(time.Millisecond + time.Duration(prng.New(cs.Jit, "C05pre", 0).Intn(int(ttl/16)+1)))
 		}
+	}
+	if cs.WaitU > 0 {
+		pW := dist.NewKvsLockProvider(inner, "/verif/")
+		if !dist.VerifSetLeaseTTL(pW, time.Hour) {
+			o.fatal = "VerifSetLeaseTTL: not a kvs lock provider"
+			return
+		}
+		lW := pW.NewLocker("L")
+		if !lW.TryLock(ctx) {
+			o.fatal = "the blocking Locker could not acquire the lock on an empty store"
+			return
+		}
+		c.mu.Lock()
+		c.waited = true
+		c.mu.Unlock()
+		wg.Add(1)
+		go func() {
+			defer wg.Done()
+			time.Sleep(time.Duration(cs.WaitU) * ttl / 24)
+			lW.Unlock()
+		}()
 	}
 	okAcq := false
 	switch cs.Acq {
@@ -585,14 +612,19 @@ func analyse(o *outcome) {
 	}
 	o.evs = evs
 	var (
-		active, alive    bool
-		acqI, curExp     int64
-		armed            bool
-		armedAt, delay   int64
-		firedI, due      int64
+		active, alive     bool
+		acqI, curExp      int64
+		armed             bool
+		armedAt, delay    int64
+		firedI, due       int64
 		inflight, atStore bool
-		fails            int64
-		max              = func(a, b int64) int64 { if a > b { return a }; return b }
+		fails             int64
+		max               = func(a, b int64) int64 {
+			if a > b {
+				return a
+			}
+			return b
+		}
 	)
 	lapse := func(e event, what string) {
 		if !o.lapse {
@@ -745,12 +777,12 @@ func coqCase(o *outcome) string {
 }
 
 type tally struct {
-	mu                                          sync.Mutex
-	discarded, abandoned, premiseExceededKept   int
-	noisyKept, attempts                         int
-	maxDl, maxEp                                map[int]int64
-	renewals, blackholed, events                int
-	discardLog                                  []string
+	mu                                        sync.Mutex
+	discarded, abandoned, premiseExceededKept int
+	noisyKept, attempts                       int
+	maxDl, maxEp                              map[int]int64
+	renewals, blackholed, events              int
+	discardLog                                []string
 }
 
 // runWithPolicy: one-sidedness against timing noise. A run in which the lease
@@ -778,6 +810,12 @@ func runWithPolicy(cs Case, tl *tally) *outcome {
 			return o
 		}
 		noisy := o.canaryMax > ttl/8
+		if o.shortLease != "" && !noisy {
+			// a goroutine that was delayed by a quarter of the lease between building its record and sending it, while
+			// the sleep canaries beside it were never late by an eighth: not the machine
+			o.failCode, o.failText = 4, o.shortLease
+			return o
+		}
 		if o.lapse && o.premise && !noisy && o.failCode != 0 {
 			// the lease of the live holder was not in force (its record had run out / was absent / a contender got the
 			// lock / its renewal was refused) although the measured timing met the premise of lease_kept and the canaries
@@ -997,6 +1035,8 @@ func generate(seed uint64, thorough bool) []Case {
 			for _, x := range races {
 				add(Case{TTLms: ttl, Acq: acq(), End: x.pos, EndK: x.k})
 			}
+			// (xi) the acquisition had to wait 0.6 .. 1.7 lease periods inside Lock for another Locker
+			add(Case{TTLms: ttl, Acq: "lock", End: "unlock", HoldU: r.Range(60, 84), WaitU: r.Range(15, 40)})
 			// Unlock while the error of a lost request is on its way back
 			add(Case{TTLms: ttl, Acq: acq(), End: "race_after", EndK: 2, Faults: []Fault{{K: 2, Kind: "req"}}})
 			// (v) like (iv), then a new holder acquires at once and holds for 3..4 lease periods
